@@ -156,6 +156,9 @@ def _combine(op, Ts, route):
     return ctor(*Ts)
 
 
+_hid = itertools.count()
+
+
 def _stages(opts):
     ndl, ncast = bool(opts.get("no_data_loss")), bool(opts.get("no_explicit_cast"))
     st = []
@@ -202,6 +205,22 @@ def run_case(case, ctx):
         shapes = tuple(TS.spec_shape(s) for s in specs)
         okey = tuple(sorted(opts.items()))
         comb = T.combinator
+        # secondary entry point: the same combinator as the type of a data-class field that is ASSIGNED on an existing instance
+        # (attribute / item assignment parse in a context of their own, unlike the constructor and type_transform)
+        holders = []
+        if case.get("assign", case["rng"].random() < 0.35):
+            try:
+                import utype
+                from utype import Field
+                for basecls in (utype.Schema, utype.DataClass):
+                    ns = {"__annotations__": {"f": T}, "f": Field(required=False), "__module__": "vmon_generated", "__qualname__": "H%d" % next(_hid),
+                          "__options__": Options(**opts)}
+                    H = type(basecls)(ns["__qualname__"], (basecls,), ns)
+                    holders.append(H)
+                    b.created.append(H)
+            except Exception as e:
+                ctx.count("holder_declaration_rejected:" + type(e).__name__)
+                holders = []
 
         def call(Tx, x, od):
             return run(lambda: type_transform(x, Tx, options=Options(**od)))
@@ -313,6 +332,25 @@ def run_case(case, ctx):
                     ctx.held(sig)
                 else:
                     ctx.trivial("fold trivial")
+            if holders and x is not None and not consumable:
+                for H in holders:
+                    for how in ("attribute", "item") if isinstance(H, type) and issubclass(H, dict) else ("attribute",):
+                        def assign(H=H, how=how):
+                            inst = H()
+                            if how == "attribute":
+                                inst.f = fresh()
+                            else:
+                                inst["f"] = fresh()
+                            return inst.f
+                        a = run(assign)
+                        ctx.count("assignments")
+                        if a.kind not in ("ok", "parse"):
+                            continue
+                        if a.ok != out.ok or (a.ok and not V.same_value(a.value, out.value)):
+                            ctx.violation(f"C09/assignment-differs-from-direct-parse/{comb}",
+                                          f"{short(T, 120)} as the type of field f of a {H.__mro__[1].__name__}: {how} assignment of {xr} -> {a!r}, "
+                                          f"type_transform -> {out!r}", dict(wit, holder=H.__mro__[1].__name__, how=how, assignment=repr(a)), sig=sig + ("assign",))
+                            break
             if ctx.want_sample() and len(specs) > 1:
                 ctx.sample(wit)
     finally:
